@@ -32,7 +32,6 @@ type FxCase struct {
 
 var otKinds = []string{"co", "cot", "cot-mal"}
 
-
 func labelHex(v uint32) string {
 	var l [4]byte
 	l[0], l[1], l[2], l[3] = byte(v>>24), byte(v>>16), byte(v>>8), byte(v)
